@@ -3,11 +3,11 @@
    Model: Model/ProjectC12.v (on Model/Layout.v, Model/View.v); byte addresses are measured from the
    root array's data_elements(); `reachable sz ops v` = v is obtained from a zero-based root of sizes sz
    by any finite sequence of C01 view operations, each inside its documented domain. *)
-From BM Require Import Base.Tactics Model.Layout Model.View Model.Spec Model.Iter Model.Rebase Model.ProjectC12
-  Model.ProjectC12Walk
+From BM Require Import Base.Tactics Model.Layout Model.View Model.Spec Model.Iter Model.Rebase Model.Asserts
+  Model.ProjectC12Based Model.ProjectC12 Model.ProjectC12Walk
   Proofs.LayoutProofs Proofs.ViewProofs2 Proofs.IterProofs Proofs.ElemProofs Proofs.C01Main Proofs.RebaseProofs
   Proofs.ProjectC12Compose Proofs.ProjectC12ComposeN Proofs.ProjectC12Main Proofs.ProjectC12ConvertBased
-  Proofs.ProjectC12Walk.
+  Proofs.ProjectC12Walk Proofs.ProjectC12Based.
 Local Open Scope Z_scope.
 
 (* member_cast designates exactly the named member of each element *)
@@ -308,7 +308,8 @@ Theorem C12_identity_any_base :
 Proof. exact C12_identity_any_base_proved. Qed.
 Print Assumptions C12_identity_any_base.
 
-(* reinterpret_array_cast<U>() of a CONST rank-1 view has its own code, which scales the offset: any index base *)
+(* reinterpret_array_cast<U>() of a CONST rank-1 view has its own hand-written code (array_ref.hpp:3287-3295): any index
+   base; only the stride assertion is made there (the general statement for both codes is C12_reinterpret_any_base) *)
 Theorem C12_reinterpret_rank1_any_base :
   forall (x : pview) (d : dim) (f n szU : Z),
     lay (p_view x) = [d] -> dim_okg d f n -> 0 < p_esz x -> 0 < szU ->
@@ -320,15 +321,153 @@ Theorem C12_reinterpret_rank1_any_base :
 Proof. exact C12_reinterpret_rank1_any_base_proved. Qed.
 Print Assumptions C12_reinterpret_rank1_any_base.
 
-(* What stays excluded and why: the two-argument layout_t::scale asserts offset_ == 0 at every level
-   (layout.hpp:987).  Every zero-based view passes; a view with a non-empty dimension whose first index is not 0
-   does not: member_cast, reinterpret_array_cast<U>(n) and the non-const reinterpret_array_cast<U>() are outside
-   their domain there (the library aborts in assertion-enabled builds). *)
-Theorem C12_scale_offset_assertion :
+(* ================================================================================================
+   FOLLOW-UP 3: layout_t::scale as repaired by /repo 1b46e17 (stride, OFFSET and nelems scaled; asserts that
+   stride*num and offset*num are multiples of den).  member_cast / reinterpret_array_cast<U>() /
+   reinterpret_array_cast<U>(n) are now defined on views with any index bases; the model (Model/ProjectC12.v)
+   uses ProjectC12Based.l_scale_b everywhere, so the theorems above (zero-based, lay_ok) are about the same code.
+   lay_okg l fn  = dimension k has (snd fn_k) valid indices starting at (fst fn_k), any sign (IterProofs.dim_okg);
+   lok l         = such fn exists; every view reachable from a root over arbitrary extensions is lok.
+   ================================================================================================ *)
+
+(* What the assertions inside scale require, and that they hold: on every well-formed layout the new offset
+   assertion follows from the stride assertion; sizeof(T) a multiple of sizeof(U) makes both true whatever the
+   strides and index bases.  l_scale_b is C20's l_scale_fixed, and the pre-1b46e17 layout on zero offsets. *)
+Theorem C12_scale_assertions :
+     (forall num den l, dom_scale_b num den l = true <->
+        Forall (fun d => Z.rem (d_stride d * num) den = 0 /\ Z.rem (d_offset d * num) den = 0) l)
+  /\ (forall num den l, lok l -> dom_scale num den l = true -> dom_scale_b num den l = true)
+  /\ (forall szT szU l, lok l -> szU <> 0 -> Z.rem szT szU = 0 -> dom_scale_b szT szU l = true)
+  /\ (forall num den l, l_scale_b num den l = l_scale_fixed num den l /\ dom_scale_b num den l = asrt_scale_plain num den l)
+  /\ (forall num den l, dom_scale_off l = true -> l_scale_b num den l = l_scale num den l)
+  /\ (forall num den l sz, lay_ok l sz -> l_scale_b num den l = l_scale num den l).
+Proof. exact C12_scale_assertions_proved. Qed.
+Print Assumptions C12_scale_assertions.
+
+(* Record of the old behaviour (code before 1b46e17): its assertion offset_ == 0 held on zero-based views only,
+   and with assertions disabled the unscaled offset moved the index range ([2,5) became [1,4)). *)
+Theorem C12_scale_old_code_refuted :
      (forall l sz, lay_ok l sz -> dom_scale_off l = true)
-  /\ (forall d l f n, dim_okg d f n -> 0 < n -> f <> 0 -> dom_scale_off (d :: l) = false).
-Proof. exact C12_scale_offset_assertion_proved. Qed.
-Print Assumptions C12_scale_offset_assertion.
+  /\ (forall d l f n, dim_okg d f n -> 0 < n -> f <> 0 -> dom_scale_off (d :: l) = false)
+  /\ (exists l, lok l /\ dom_scale 16 8 l = true
+                /\ l_extensions l = [(2, 5)] /\ l_extensions (l_scale 16 8 l) = [(1, 4)] /\ l_extensions (l_scale_b 16 8 l) = [(2, 5)]).
+Proof. exact C12_scale_old_code_refuted_proved. Qed.
+Print Assumptions C12_scale_old_code_refuted.
+
+(* member_cast on a view with ANY index bases: both assertions of scale hold, the result has the index ranges
+   (extensions) and sizes of the source, is again well-formed with the same first indices, and at EVERY index
+   tuple designates byte offsetof(member) of the source element at the SAME index tuple. *)
+Theorem C12_member_cast_any_base :
+  forall (x : pview) (fn : list (Z * Z)) (szU moff : Z),
+    lay_okg (lay (p_view x)) fn -> 0 < p_esz x -> 0 < szU ->
+    dom_scale (p_esz x) szU (lay (p_view x)) = true ->
+    let m := p_member_cast szU moff x in
+       dom_scale_b (p_esz x) szU (lay (p_view x)) = true
+    /\ lay_okg (lay (p_view m)) fn
+    /\ l_extensions (lay (p_view m)) = l_extensions (lay (p_view x))
+    /\ l_sizes (lay (p_view m)) = l_sizes (lay (p_view x))
+    /\ p_esz m = szU
+    /\ forall idx, p_addr_brackets m idx = p_addr_brackets x idx + moff.
+Proof. exact C12_member_cast_any_base_proved. Qed.
+Print Assumptions C12_member_cast_any_base.
+
+(* reinterpret_array_cast<U>() (the generic code through scale and the hand-written rank-1 const& code), any index
+   bases: same index ranges, every element stays at its address. *)
+Theorem C12_reinterpret_any_base :
+  forall (x : pview) (fn : list (Z * Z)) (szU : Z),
+    lay_okg (lay (p_view x)) fn -> 0 < p_esz x -> 0 < szU ->
+    dom_scale (p_esz x) szU (lay (p_view x)) = true ->
+    let m := p_reinterpret szU x in
+       dom_scale_b (p_esz x) szU (lay (p_view x)) = true
+    /\ lay_okg (lay (p_view m)) fn
+    /\ l_extensions (lay (p_view m)) = l_extensions (lay (p_view x))
+    /\ l_sizes (lay (p_view m)) = l_sizes (lay (p_view x))
+    /\ p_esz m = szU
+    /\ forall idx, p_addr_brackets m idx = p_addr_brackets x idx.
+Proof. exact C12_reinterpret_any_base_proved. Qed.
+Print Assumptions C12_reinterpret_any_base.
+
+(* reinterpret_array_cast<U>(n), any index bases: the source dimensions keep their index ranges, the added trailing
+   dimension is [0, n) whatever the bases of the source, and element (idx, j) is at byte j*sizeof(U) of the source
+   element idx (inside it when sizeof(T) = n*sizeof(U)). *)
+Theorem C12_reinterpret_extra_dim_any_base :
+  forall (x : pview) (fn : list (Z * Z)) (szU n : Z),
+    lay_okg (lay (p_view x)) fn -> 0 < p_esz x -> 0 < szU -> 0 <= n ->
+    dom_scale (p_esz x) szU (lay (p_view x)) = true ->
+    let m := p_reinterpret_n szU n x in
+       dom_scale_b (p_esz x) szU (lay (p_view x)) = true
+    /\ lay_okg (lay (p_view m)) (fn ++ [(0, n)])
+    /\ l_extensions (lay (p_view m)) = l_extensions (lay (p_view x)) ++ [(0, n)]
+    /\ l_sizes (lay (p_view m)) = l_sizes (lay (p_view x)) ++ [n]
+    /\ p_esz m = szU
+    /\ forall idx j, length idx = length fn ->
+            p_addr_brackets m (idx ++ [j]) = p_addr_brackets x idx + j * szU
+         /\ (0 <= j < n -> p_esz x = szU * n ->
+               p_addr_brackets x idx <= p_addr_brackets m (idx ++ [j])
+            /\ p_addr_brackets m (idx ++ [j]) + szU <= p_addr_brackets x idx + p_esz x).
+Proof. exact C12_reinterpret_extra_dim_any_base_proved. Qed.
+Print Assumptions C12_reinterpret_extra_dim_any_base.
+
+(* From the root: on EVERY view reachable from a root built over arbitrary index extensions by the operations of C01
+   and C19 (run_safe as in C19_rebase_transparent), with sizeof(T) a multiple of sizeof(U) (the static_assert of the
+   casts), every assertion of the projection holds for every receiver kind (p_dom_proj), the projected view has the
+   source's index ranges, and element idx is the member / the bytes of the root element at the position the documented
+   index maps of the zero-based twin program prescribe. *)
+Theorem C12_member_cast_from_based_root :
+  forall (exts : list range) (ops : list op) (w : view) (szT szU moff : Z),
+    Forall (fun r => fst r <= snd r) exts ->
+    run_safe ops (root_view exts) = true -> run_ops ops (root_view exts) = Some w ->
+    dom_member szT szU moff = true ->
+    let sz := map r_size exts in
+    let a := run_spec (twin_ops ops (root_view exts)) (root_spec sz) in
+    let m := p_member_cast szU moff (p_embed szT w) in
+       p_dom_proj false (PMember szU moff) (p_embed szT w) = true
+    /\ p_dom_proj true (PMember szU moff) (p_embed szT w) = true
+    /\ l_extensions (lay (p_view m)) = l_extensions (lay w)
+    /\ forall idx, in_extl (lay w) idx ->
+         let k := rowmajor (collapse sz) (amap a (vsubz idx (firsts_of w))) in
+            p_addr_brackets m idx = szT * addr_brackets w idx + moff
+         /\ p_addr_brackets m idx = szT * k + moff
+         /\ 0 <= k < prod sz
+         /\ szT * k <= p_addr_brackets m idx /\ p_addr_brackets m idx + szU <= szT * (k + 1).
+Proof. exact C12_member_cast_from_based_root_proved. Qed.
+Print Assumptions C12_member_cast_from_based_root.
+
+Theorem C12_reinterpret_from_based_root :
+  forall (exts : list range) (ops : list op) (w : view) (szT szU : Z),
+    Forall (fun r => fst r <= snd r) exts ->
+    run_safe ops (root_view exts) = true -> run_ops ops (root_view exts) = Some w ->
+    0 < szT -> 0 < szU -> Z.rem szT szU = 0 ->
+    let sz := map r_size exts in
+    let a := run_spec (twin_ops ops (root_view exts)) (root_spec sz) in
+    let m := p_reinterpret szU (p_embed szT w) in
+       (forall constref, p_dom_proj constref (PReinterpret szU) (p_embed szT w) = true)
+    /\ l_extensions (lay (p_view m)) = l_extensions (lay w)
+    /\ forall idx, in_extl (lay w) idx ->
+         let k := rowmajor (collapse sz) (amap a (vsubz idx (firsts_of w))) in
+            p_addr_brackets m idx = szT * addr_brackets w idx
+         /\ p_addr_brackets m idx = szT * k
+         /\ 0 <= k < prod sz.
+Proof. exact C12_reinterpret_from_based_root_proved. Qed.
+Print Assumptions C12_reinterpret_from_based_root.
+
+Theorem C12_reinterpret_extra_dim_from_based_root :
+  forall (exts : list range) (ops : list op) (w : view) (szT szU n : Z),
+    Forall (fun r => fst r <= snd r) exts ->
+    run_safe ops (root_view exts) = true -> run_ops ops (root_view exts) = Some w ->
+    dom_reinterpret_n szT szU n = true ->
+    let sz := map r_size exts in
+    let a := run_spec (twin_ops ops (root_view exts)) (root_spec sz) in
+    let m := p_reinterpret_n szU n (p_embed szT w) in
+       (forall constref, p_dom_proj constref (PReinterpretN szU n) (p_embed szT w) = true)
+    /\ l_extensions (lay (p_view m)) = l_extensions (lay w) ++ [(0, n)]
+    /\ forall idx j, in_extl (lay w) idx -> 0 <= j < n ->
+         let k := rowmajor (collapse sz) (amap a (vsubz idx (firsts_of w))) in
+            p_addr_brackets m (idx ++ [j]) = szT * k + j * szU
+         /\ 0 <= k < prod sz
+         /\ szT * k <= p_addr_brackets m (idx ++ [j]) /\ p_addr_brackets m (idx ++ [j]) + szU <= szT * (k + 1).
+Proof. exact C12_reinterpret_extra_dim_from_based_root_proved. Qed.
+Print Assumptions C12_reinterpret_extra_dim_from_based_root.
 
 (* Conversion-construction from every re-based reachable view: always defined; when the view has elements the new
    array has the SAME extensions (first indices included) and element idx = conv (source element idx) for every
